@@ -98,3 +98,107 @@ Example C02_nonvacuous :
   canonicalb c = true /\ wfb n = true /\ canonicalb n = false /\ binary_op n (mk_true 3) op_and = Ok c.
 Proof. vm_compute. repeat split; reflexivity. Qed.
 Print Assumptions C02_nonvacuous.
+
+(* ---- gaps closed (Model/Hash.v, Proofs/Gaps2Canon.v) ---- *)
+From BddVerif Require Import Model.Hash Model.Serial Model.OptDnf Proofs.SerialBytes Proofs.Gaps2Canon.
+
+(* "equal under ==, hash equally and serialize to the same text and bytes": == is bdd_eqb (derived PartialEq of the node
+   vector), the Hash is the stream of Hasher::write_* calls of the derived impl (Model/Hash.v), text and bytes are the
+   writers of Model/Serial.v *)
+Theorem C02_equal_function_same_observations : forall a b,
+  Canonical a -> Canonical b -> nvars a = nvars b -> (forall v, eval a v = eval b v) ->
+  a = b /\ bdd_eqb a b = true /\ bdd_hash_stream a = bdd_hash_stream b /\
+  write_text a = write_text b /\ write_bytes a = write_bytes b.
+Proof. exact equal_function_same_observations. Qed.
+Print Assumptions C02_equal_function_same_observations.
+
+Theorem C02_history_same_observations : forall h rs i j a b, run h = Ok rs ->
+  nth_error rs i = Some a -> nth_error rs j = Some b -> nvars a = nvars b -> (forall v, eval a v = eval b v) ->
+  a = b /\ bdd_eqb a b = true /\ bdd_hash_stream a = bdd_hash_stream b /\
+  write_text a = write_text b /\ write_bytes a = write_bytes b.
+Proof. exact history_same_observations. Qed.
+Print Assumptions C02_history_same_observations.
+
+(* conversely each observation determines the array, for diagrams whose fields fit u16 / u32 (every Bdd the Rust stores):
+   comparing hashes-streams, texts or bytes is comparing arrays *)
+Theorem C02_observations_iff : forall a b, in_range a -> in_range b ->
+  (bdd_eqb a b = true <-> a = b) /\ (bdd_hash_stream a = bdd_hash_stream b <-> a = b) /\
+  (write_text a = write_text b <-> a = b) /\ (write_bytes a = write_bytes b <-> a = b).
+Proof. exact observations_iff. Qed.
+Print Assumptions C02_observations_iff.
+
+(* "reduced and ordered, stores children before parents with the root last, and contains no unreachable nodes",
+   in terms of the array only *)
+Theorem C02_canonical_structure : forall b, Canonical b ->
+  (1 <= size b /\ get b 0 = mkNode (nvars b) 0 0 /\ (2 <= size b -> get b 1 = mkNode (nvars b) 1 1)) /\
+  (forall p, 2 <= p -> p < size b -> nlow (get b p) < p /\ nhigh (get b p) < p) /\
+  (forall q, 1 <= q -> q < size b - 1 -> exists j, 2 <= j /\ q < j /\ j < size b /\ (nlow (get b j) = q \/ nhigh (get b j) = q)) /\
+  (forall p, 2 <= p -> p < size b -> exists ps, edge_chain b (size b - 1) ps p) /\
+  (forall p q, 2 <= p -> p < size b -> 2 <= q -> q < size b ->
+     nvar (get b p) = nvar (get b q) -> nlow (get b p) = nlow (get b q) -> nhigh (get b p) = nhigh (get b q) -> p = q) /\
+  (forall p, 2 <= p -> p < size b -> nlow (get b p) <> nhigh (get b p)) /\
+  (forall p, 2 <= p -> p < size b ->
+     nvar (get b p) < nvars b /\ nlow (get b p) < size b /\ nhigh (get b p) < size b /\
+     nvar (get b p) < nvar (get b (nlow (get b p))) /\ nvar (get b p) < nvar (get b (nhigh (get b p)))).
+Proof. exact canonical_structure. Qed.
+Print Assumptions C02_canonical_structure.
+
+(* the history theorems are not vacuous: fifteen operations of eleven different kinds run to Ok; the function
+   (x0 /\ x1) \/ x2 is reached along six routes and every time as the same array, hash stream, text and bytes *)
+Example C02_history_nonvacuous :
+  let h := [ HLit 4 0 true; HLit 4 1 true; HLit 4 2 true;                      (* 0..2 literals *)
+             HBin op_and None None None 0 1;                                    (* 3  x0 /\ x1 *)
+             HBin op_or None None None 3 2;                                     (* 4  route 1 *)
+             HDnf 4 [[Some true; Some true]; [None; None; Some true]];          (* 5  route 2: mk_dnf *)
+             HTrue 4;                                                           (* 6 *)
+             HIte 2 6 3;                                                        (* 7  route 3: if x2 then 1 else x0 /\ x1 *)
+             HNot 4; HNot 8;                                                    (* 8, 9  route 4: double negation *)
+             HClause 4 [None; None; None; Some true];                           (* 10 x3 *)
+             HBinExists op_and 4 10 [3];                                        (* 11 route 5: exists x3. (4) /\ x3 *)
+             HVarSelect 4 3 true; HExists 12 [3];                               (* 12, 13 route 6 *)
+             HRestrict 4 [(2, false)] ] in                                      (* 14 (x0 /\ x1) with x2 := 0 *)
+  let t := [mkNode 4 0 0; mkNode 4 1 1; mkNode 2 0 1; mkNode 1 2 1; mkNode 0 2 3] in
+  exists rs, run h = Ok rs /\ length rs = 15%nat /\ forallb canonicalb rs = true /\
+    map (nth_error rs) [4; 5; 7; 9; 11; 13]%nat = repeat (Some t) 6 /\
+    nth_error rs 14 = nth_error rs 3 /\
+    bdd_hash_stream t = [254; 5;0;0;0;0;0;0;0;  254;4;0; 254;0;0;0;0; 254;0;0;0;0;  254;4;0; 254;1;0;0;0; 254;1;0;0;0;
+                         254;2;0; 254;0;0;0;0; 254;1;0;0;0;  254;1;0; 254;2;0;0;0; 254;1;0;0;0;  254;0;0; 254;2;0;0;0; 254;3;0;0;0] /\
+    write_text t = [124; 52;44;48;44;48;124; 52;44;49;44;49;124; 50;44;48;44;49;124; 49;44;50;44;49;124; 48;44;50;44;51;124].
+Proof.
+  eexists. split; [vm_compute; reflexivity|]. repeat split; vm_compute; reflexivity.
+Qed.
+Print Assumptions C02_history_nonvacuous.
+
+(* ---- the history language extended by the remaining producers of the property text (Proofs/Gaps2History.v): `hop2` embeds
+   `hop` and adds var_exists / var_for_all, rename_variable / rename_variables / set_num_vars / transfer_from, reading back
+   the text / bytes written for an earlier result, eval_expr, and the size-limited binary operator; `run2` appends a result
+   whenever the library answers with a Bdd (None answers add nothing) ---- *)
+From BddVerif Require Import Model.Rename Model.Expr Proofs.Gaps2History.
+Theorem C02_history2_canonical : forall h rs, run2 h = Ok rs -> Forall Canonical rs.
+Proof. exact history2_canonical. Qed.
+Print Assumptions C02_history2_canonical.
+
+Theorem C02_history2_equal : forall h rs i j a b, run2 h = Ok rs ->
+  nth_error rs i = Some a -> nth_error rs j = Some b -> nvars a = nvars b ->
+  (forall v, eval a v = eval b v) -> a = b.
+Proof. exact history2_equal. Qed.
+Print Assumptions C02_history2_equal.
+
+Theorem C02_history2_embeds : forall h, run2 (map H1 h) = run h.
+Proof. exact run2_embeds. Qed.
+Print Assumptions C02_history2_embeds.
+
+(* deserialisation of library output is the identity on the array *)
+Theorem C02_history2_read_back : forall rs i r,
+  (step2 rs (HReadText i) = Ok (Some r) \/ step2 rs (HReadBytes i) = Ok (Some r)) -> nth_error rs i = Some r.
+Proof. exact step2_read_back. Qed.
+Print Assumptions C02_history2_read_back.
+
+Example C02_history2_nonvacuous :
+  exists rs, run2 ex_history2 = Ok rs /\ length rs = 14%nat /\ forallb canonicalb rs = true /\
+    map (nth_error rs) [8; 9; 10; 11]%nat = repeat (nth_error rs 2) 4 /\
+    nth_error rs 2 = Some [mkNode 3 0 0; mkNode 3 1 1; mkNode 1 0 1; mkNode 0 0 2] /\
+    nth_error rs 13 = nth_error rs 7 /\ nth_error rs 7 = Some [mkNode 3 0 0; mkNode 3 1 1; mkNode 2 0 1; mkNode 1 0 2] /\
+    nth_error rs 4 = Some (mk_false 3).
+Proof. exact history2_example. Qed.
+Print Assumptions C02_history2_nonvacuous.
